@@ -589,7 +589,33 @@ def multiply_orchestration_cases():
                         return "%s: new segments %s" % (what, new)
                     if any(g.segment(x).RC != 12 // factor for x in ["a"] + new):
                         return "%s: counts %s" % (what, [g.segment(x).RC for x in ["a"] + new])
-    return _multiply_referred_name()
+    r = _multiply_referred_name()
+    if r is not True:
+        return r
+    return _multiply_counts_of_edges()
+
+
+def _multiply_counts_of_edges():
+    """the counts of every edge of the multiplied segment are divided exactly once: links to other segments, a link of the segment with
+    itself (listed twice among its edges), a hairpin, a containment"""
+    import gfapy
+    base = ["S\ta\t*\tRC:i:12", "S\tb\t*\tRC:i:12", "L\ta\t+\tb\t+\t*\tRC:i:12", "L\ta\t+\ta\t+\t*\tRC:i:12\tKC:i:24", "L\ta\t-\ta\t+\t*\tFC:i:12",
+            "C\ta\t+\tb\t+\t0\t*\tRC:i:12", "L\tb\t+\tb\t-\t*\tRC:i:12"]
+    for factor in (2, 3):
+        g = gfapy.Gfa(base)
+        g.multiply("a", factor)
+        for l in list(g.dovetails) + list(g.containments):
+            touches = "a" in (l.from_segment.name.split("*")[0], l.to_segment.name.split("*")[0])
+            for tag, full in (("RC", 12), ("KC", 24), ("FC", 12)):
+                v = l.get(tag)
+                if v is None:
+                    continue
+                want = full // factor if touches else full
+                if v != want:
+                    return "multiply('a', %d): %s has %s:%s, expected %s (the counts of an edge of the segment are divided once, those of other edges not at all)" % (factor, l, tag, v, want)
+        if g.segment("a").RC != 12 // factor or g.segment("b").RC != 12:
+            return "multiply('a', %d): segment counts a=%s b=%s" % (factor, g.segment("a").RC, g.segment("b").RC)
+    return True
 
 
 def _multiply_referred_name():
